@@ -103,7 +103,8 @@ func stamp() string {
 			return nil
 		})
 	}
-	for _, extra := range []string{SubjectInventoryFile(), UserRulesFile(), UserCommentRulesFile(), filepath.Join(VerifRoot(), "corpus", "synth", "index.json")} {
+	for _, extra := range []string{SubjectInventoryFile(), UserRulesFile(), UserCommentRulesFile(), filepath.Join(VerifRoot(), "corpus", "synth", "index.json"),
+		filepath.Join(VerifRoot(), "harness", "walkrec", "main.go.txt")} {
 		if b, err := os.ReadFile(extra); err == nil {
 			h.Write(b)
 		}
